@@ -102,6 +102,33 @@ def evolved(doc):
     for e in d["enumerations"]:
         if e["name"] == "MarkupKind":
             e["values"].append({"name": "VerifMarkup", "value": "verifmarkup"})
+    # anonymous literals whose property names TIE in length (names are taken from the model: properties that hold a
+    # structure by reference), in a type alias and in a property: wherever a plugin derives a name from "the longest",
+    # "the first" or "the smallest" of a collection of names, a tie must not be broken by set order
+    import collections
+    freq = collections.Counter()
+    tyof = {}
+    for st in doc["structures"]:
+        for p in st["properties"]:
+            t = p["type"]
+            if t.get("kind") == "reference" and t["name"] in by and p["name"].isalpha():
+                freq[p["name"]] += 1
+                tyof.setdefault(p["name"], t)
+    common_names = [n for n, c in freq.most_common() if c >= 3] or [n for n, c in freq.most_common(12)]
+    bylen = {}
+    for n in common_names:                       # most frequent first
+        bylen.setdefault(len(n), []).append(n)
+    k = 0
+    for ln in sorted(bylen):
+        names = bylen[ln]
+        for a, b in zip(names, names[1:]):
+            if k >= 6:
+                break
+            k += 1
+            lit = {"kind": "literal", "value": {"properties": [{"name": a, "type": tyof[a]}, {"name": b, "type": tyof[b]}]}}
+            d["typeAliases"].append({"name": "VerifTie%d" % k, "type": {"kind": "or", "items": [tyof[a], lit]}})
+            d["structures"].append({"name": "VerifTieHolder%d" % k, "properties": [{"name": "target", "type": copy.deepcopy(lit)},
+                                                                                  {"name": "targets", "type": {"kind": "array", "element": copy.deepcopy(lit)}, "optional": True}]})
     return d
 
 
